@@ -707,6 +707,22 @@ def subst(e, pmap, upmap=None):
     return tuple(subst(x, pmap, upmap) if isinstance(x, tuple) else x for x in e)
 
 
+def subst_simplify(e, pmap, upmap=None):
+    """substitute parameters (and upvars) and re-normalise: a field of a substituted aggregate becomes the aggregate's component, so that an
+    argument passed inside a struct (`f(Site { idx, coin })` … `site.idx`) reads the same as one passed on its own"""
+    if not isinstance(e, tuple):
+        return e
+    if e and e[0] == "param" and e[1] in pmap:
+        return pmap[e[1]]
+    if e and e[0] == "upvar" and upmap and e[1] in upmap:
+        return upmap[e[1]]
+    if e and e[0] == "field" and len(e) == 3:
+        return mir.mk_field(subst_simplify(e[1], pmap, upmap), e[2])
+    if e and e[0] == "vfield" and len(e) == 4:
+        return mir.mk_vfield(subst_simplify(e[1], pmap, upmap), e[2], e[3])
+    return tuple(subst_simplify(x, pmap, upmap) if isinstance(x, tuple) else x for x in e)
+
+
 def inline(prog, e, depth=3, only_crates=("melstf", "melvm", "tip911_stakeset")):
     """replace calls to local single-expression functions by their (substituted) result expression"""
     if not isinstance(e, tuple) or depth <= 0:
